@@ -96,6 +96,9 @@ def prep(case, t):
     """the operand a case speaks about: for the unflatten operations a tensor whose rank d holds tuple coordinates (built by flattening ranks d, d+1)"""
     if case["op"] in ("unflatten", "fiberUnflatten"):
         return t.flattenRanks(depth=case.get("d", 0), levels=1, coord_style="tuple")
+    if case.get("flat"):
+        # an operand whose top rank holds tuple coordinates (read-only operations on transformed tensors)
+        return t.flattenRanks(depth=0, levels=1, coord_style=case["flat"])
     return t
 
 
@@ -253,6 +256,8 @@ def execute(case):
         dfl = case.get("fdflt", 0)
         t = prep(case, proj.build_tensor(case["tree"], IDS[:depth], shape=[6] * depth, name="T", default=dfl))
         t2 = proj.build_tensor(case.get("tree2", case["tree"]), IDS[:depth], shape=[6] * depth, name="T2", default=dfl)
+        if case.get("flat") and t2.getRoot().coords:
+            t2 = prep(case, t2)
         keep = []
         out["pre"] = pj(t, oids)
         if case["kind"] == "observer":
